@@ -57,6 +57,8 @@ def plan(tier, ctx):
         combos = combos[:150]
         for i, (n, sp, oc, eos, fl) in enumerate(combos):
             wrap = (0, 1, 3, 2, 4)[i % 5] if oc != 1 else (0, 3, 4)[i % 3]
+            if n == 3 and wrap in (1, 2):
+                wrap = (0, 3, 4)[i % 3]  # CRC-32 over 3 symbolic bytes costs ~2 min/query (XOR-heavy): gzip at n = 3 is thorough-only
             cl = [rnd.choice(D.STATIC_LIT_CLASSES) for _ in range(n)]
             core = (i < 4)
             qs.append(stream_query("S", wrap, sp, oc, eos, fl, cl, witness=(i % 10 == 0) or core, core=False))
@@ -71,10 +73,15 @@ def plan(tier, ctx):
                         for fl in (0, 1):
                             for wrap in ((0, 1, 3) if oc > 1 else (0, 3)):
                                 for cl in itertools.product(D.STATIC_LIT_CLASSES, repeat=n):
-                                    if n == 3 and wrap != 0 and (cl.count(8) not in (0, 3)) and oc not in (1, 8):
+                                    if n == 3 and wrap == 3 and (cl.count(8) not in (0, 3)) and oc not in (1, 8):
+                                        continue
+                                    if n == 3 and wrap == 1 and not (oc in (1, 8) and cl.count(8) in (0, 3) and fl == 1):
+                                        continue
+                                    if n == 3 and wrap == 0 and eos == 1 and oc in (2, 9, 64) and cl.count(8) not in (0, 3):
                                         continue
                                     qs.append(stream_query("S", wrap, sp, oc, eos, fl, list(cl),
-                                                           witness=(sp == (1, 1, 1) and oc == 7), core=False))
+                                                           witness=(sp == (1, 1, 1) and oc == 7), core=False,
+                                                           timeout=(1200 if (wrap == 1 and n == 3) else 400)))
         qs.append(stream_query("S", 1, (1, 1, 0), 8, 0, 1, [8, 9], witness=True, core=True))
     seen = set()
     uq = []
